@@ -25,6 +25,7 @@ type c02In struct {
 	Ops      []FsOp `json:"ops"`
 	MemView  bool   `json:"mem_view"`  // memory side runs behind a child view
 	DiskView bool   `json:"disk_view"` // disk side runs behind a child view
+	Two      bool   `json:"two,omitempty"` // each side is used through two filespace objects for the same root (ops with view 1 go through the second)
 }
 
 func c02Gen(r *Rand, tier string) interface{} {
@@ -35,10 +36,13 @@ func c02Gen(r *Rand, tier string) interface{} {
 	if tier == "thorough" && r.Chance(1, 10) {
 		n = 30 + r.Intn(60)
 	}
-	in := &c02In{MemView: r.Chance(1, 3), DiskView: r.Chance(1, 3)}
+	in := &c02In{MemView: r.Chance(1, 3), DiskView: r.Chance(1, 3), Two: r.Chance(1, 3)}
 	in.Ops = genFsOps(r, n, nil, false, nil)
 	for i := range in.Ops {
 		in.Ops[i].View = 0
+		if in.Two && r.Chance(1, 3) {
+			in.Ops[i].View = 1
+		}
 		if in.Ops[i].Kind == "Filespace" {
 			in.Ops[i].Kind = "ReadDir"
 		}
@@ -135,6 +139,18 @@ func c02Run(inI interface{}, env *Env) *Failure {
 	}
 	hostBefore, _ := snapshotHost(dir, "root/base")()
 	sides := []*c02Side{{"memory", mem, NewModelTree()}, {"disk", disk, NewModelTree()}}
+	// a second, long-lived filespace object for the same root on each side: what one object
+	// remembers must not go stale when the tree changes through the other
+	var second [2]filesystem.Filespace
+	if in.Two {
+		for si, sd := range sides {
+			alt, err := sd.fs.Filespace(".")
+			if err != nil {
+				panic(harnessTrouble{"second handle on the " + sd.name + " side: " + err.Error()})
+			}
+			second[si] = alt
+		}
+	}
 	for i, op := range in.Ops {
 		var results [2]FsResult
 		var pres [2]bool
@@ -149,7 +165,11 @@ func c02Run(inI interface{}, env *Env) *Failure {
 			pres[si] = pre
 			before := sd.model.Flatten()
 			exp := sd.model.Expectation(nil, op)
-			r := RunFsOp(sd.fs, op)
+			target := sd.fs
+			if in.Two && op.View == 1 {
+				target = second[si]
+			}
+			r := RunFsOp(target, op)
 			results[si] = r
 			key := sd.name + "/" + op.Kind
 			if r.Panic != "" {
